@@ -641,6 +641,17 @@ func (handler) EchoParams(ctx context.Context, params api.EchoParamsParams) (*ap
 	return paramsEcho(params), nil
 }
 
+func (handler) EchoSeg(ctx context.Context, params api.EchoSegParams) (*api.EchoSegOK, error) {
+	yield(ctx)
+	saw(ctx, canon(params))
+	return &api.EchoSegOK{From: params.From, To: params.To, Key: params.Key}, nil
+}
+
+// segTexts: values for parameters that share a path segment with literal text. The literals of the world's
+// template /echo/seg/{from};{to}/v({key}) are ; ( ) - a value containing one of them may be refused, never changed;
+// the other characters are no delimiters here and must arrive.
+var segTexts = []string{"l;r", "a)b", "x(y", "p!q", "a,b", "it's", "st*r", "a;b)c(", "e=f", "g:h", "i@j", "k$l", "m&n", "o+p"}
+
 // text values for parameters: the core domain (non-empty, without any style's delimiter) and values that
 // contain a delimiter (which a side may refuse, but never change).
 var coreTexts = []string{"a b", "x+y", "p%q", "u/v", "k=v", "q?r#s&t", "tab\there", "é✓ü", "100%", "a  b", "%41", "+", "~_-"}
@@ -1119,6 +1130,20 @@ func doCall(ctx context.Context, c *api.Client, rec *CallRecord) {
 		rec.ExpectClientGot = canon(*paramsEcho(params))
 		rec.ExpectStatus = 200
 		res, err := c.EchoParams(ctx, params)
+		finish(rec, res, err)
+	case "echoSeg":
+		text := func() string {
+			if r.intn(2) == 0 {
+				return segTexts[r.intn(len(segTexts))] + tag
+			}
+			return coreTexts[r.intn(len(coreTexts))] + " " + tag
+		}
+		params := api.EchoSegParams{From: text(), To: text(), Key: text()}
+		rec.MayRefuse = strings.ContainsAny(params.From+params.To+params.Key, ";()")
+		rec.ExpectServerSaw = canon(params)
+		rec.ExpectClientGot = canon(api.EchoSegOK{From: params.From, To: params.To, Key: params.Key})
+		rec.ExpectStatus = 200
+		res, err := c.EchoSeg(ctx, params)
 		finish(rec, res, err)
 	case "echoShapes":
 		sh, exp := makeShapes(tag, r)
